@@ -44,6 +44,9 @@ pub enum Mutation {
     SignalOther(Vec<u8>),
     DeclaredLenLongerWithTail(u8),
     RootSet { with_root_at: Option<u8>, others: u8, near_miss: bool },
+    /// root sets made of distinguished values: kind 0 = zero entries, 1 = the empty tree's root,
+    /// 2 = p-1, 3 = one; `count` copies, optionally with the real root appended
+    RootSetSpecial { kind: u8, count: u8, with_root: bool },
 }
 
 #[derive(Clone, Debug, Serialize, Deserialize)]
@@ -147,6 +150,19 @@ fn build(pool: &Pool, c: &Case) -> (Vec<u8>, Vec<u8>) {
             }
             roots = set.iter().flat_map(cr::enc_fr).collect();
         }
+        Mutation::RootSetSpecial { kind, count, with_root } => {
+            let v = match kind % 4 {
+                0 => BigUint::from(0u32),
+                1 => crate::models::field::fr_to_big(&crate::models::tree_model::TreeModel::new(DEPTH, ark_bn254::Fr::from(0u64)).root()),
+                2 => p() - 1u32,
+                _ => BigUint::from(1u32),
+            };
+            let mut set: Vec<BigUint> = (0..(*count % 4) + 1).map(|_| v.clone()).collect();
+            if *with_root {
+                set.push(pool.root.clone());
+            }
+            roots = set.iter().flat_map(cr::enc_fr).collect();
+        }
     }
     let input = match c.target {
         Target::Verify => msg,
@@ -189,7 +205,7 @@ impl Property for C02 {
         "C02"
     }
     fn rule(&self) -> String {
-        "a pool of accepted messages (C01's generator) x modifications of the decoded message: each of root / external nullifier / x / y / nullifier replaced by +1, -1, another field's value, 0, a random value or the same field of another accepted message; two fields swapped; any single bit of the 128 proof bytes flipped; the proof of another accepted message; signal byte flipped / appended / truncated / emptied / replaced, with and without adjusting the declared length; declared length extended over trailing bytes; root sets without the root, with it at every position, with near-misses root±1, and empty; on verify / verify_rln_proof / verify_with_roots. Fixed part: verifier tree changed after proving (set/delete other leaves, the prover's leaf) and restored. \
+        "a pool of accepted messages (C01's generator) x modifications of the decoded message: each of root / external nullifier / x / y / nullifier replaced by +1, -1, another field's value, 0, a random value or the same field of another accepted message; two fields swapped; any single bit of the 128 proof bytes flipped; the proof of another accepted message; signal byte flipped / appended / truncated / emptied / replaced, with and without adjusting the declared length; declared length extended over trailing bytes; root sets without the root, with it at every position, with near-misses root±1, made only of distinguished values (zero entries, the empty tree's root, p-1, 1) with and without the real root, and empty; on verify / verify_rln_proof / verify_with_roots. Fixed part: verifier tree changed after proving (set/delete other leaves, the prover's leaf) and restored. \
          Oracle (computed independently per input): true iff proof+value bytes are the accepted message's, Keccak_ref(declared signal) = carried x and the root condition holds. non-trivial = a modification that breaks exactly one of the three conditions; distinct by case content".into()
     }
     fn assumptions(&self) -> Vec<String> {
@@ -218,6 +234,7 @@ impl Property for C02 {
             1 => proptest::collection::vec(any::<u8>(), 0..40).prop_map(Mutation::SignalOther),
             1 => any::<u8>().prop_map(Mutation::DeclaredLenLongerWithTail),
             4 => (proptest::option::of(any::<u8>()), any::<u8>(), any::<bool>()).prop_map(|(with_root_at, others, near_miss)| Mutation::RootSet { with_root_at, others, near_miss }),
+            2 => (0u8..4, any::<u8>(), any::<bool>()).prop_map(|(kind, count, with_root)| Mutation::RootSetSpecial { kind, count, with_root }),
         ];
         let target = prop_oneof![1 => Just(Target::Verify), 3 => Just(Target::VerifyRln), 3 => Just(Target::VerifyRoots)];
         (any::<u8>(), target, mutation).prop_map(|(golden, target, mutation)| Case { golden, target, mutation }).boxed()
